@@ -250,6 +250,25 @@ func (w *World) monitorHostile() {
 				redial = true
 			}
 		}
+		if errSeen {
+			// the connection was given up: every request that waited for its
+			// response on it has been told so (C11: every call returns)
+			open := map[string]Event{}
+			for _, e := range w.log {
+				k := fmt.Sprintf("%s/%d", e.T, e.N)
+				if e.K == "call" && (e.S == "ping" || strings.HasPrefix(e.S, "sub") || e.S == "unsub") {
+					open[k] = e
+				}
+				if e.K == "ret" {
+					delete(open, k)
+				}
+			}
+			for _, e := range open {
+				if e.Step < w.log[hIdx].Step {
+					w.Violate("C11", "call-never-returns#after-reset", "%s op %d (%s) was pending when the broker sent %x; the connection was reset, yet the call has not returned at quiescence", e.T, e.N, e.S, raw)
+				}
+			}
+		}
 		if !errSeen {
 			w.Violate("C13", "violation-not-reported", "broker sent %x (%s): ReadSlices reported no error", raw, why)
 		} else if !redial {
